@@ -310,6 +310,39 @@ const TOT_NUM_ACCUM_BITS: u32 = 24;
 /// Note that the lookup table size MUST be a power of 2
 const NUM_LUT_INDEX_BITS: u32 = ilog_2(lookup_tables::ADSR_CURVE_LUT_SIZE);
 
+#[cfg(feature = "verif-hooks")]
+impl Adsr {
+    /// The current phase of the envelope, for the verification harness
+    pub fn verif_state(&self) -> State {
+        self.state
+    }
+
+    /// The position inside the current timed phase as a 24-bit counter value, for the verification harness
+    pub fn verif_phase_bits(&self) -> u32 {
+        self.phase_accumulator.verif_raw()[1]
+    }
+
+    /// The complete internal state as raw words, for the verification harness (state identity only)
+    pub fn verif_key(&self) -> [u32; 13] {
+        let pa = self.phase_accumulator.verif_raw();
+        [
+            self.attack_time.0.to_bits(),
+            self.decay_time.0.to_bits(),
+            self.sustain_level.0.to_bits(),
+            self.release_time.0.to_bits(),
+            pa[0],
+            pa[1],
+            pa[2],
+            pa[3],
+            pa[4],
+            self.state as u32,
+            self.value_when_gate_on_received.to_bits(),
+            self.value_when_gate_off_received.to_bits(),
+            self.value.to_bits(),
+        ]
+    }
+}
+
 #[cfg(test)]
 mod tests {
     use super::*;
